@@ -2,17 +2,22 @@
 validate_types(), zero or one non-conforming field at each position, inheritance, slots, user __post_init__."""
 import sys, os, json, tempfile, shutil, importlib.util, dataclasses, copy
 import _checker_common as K
+import _frozentrace_common as FT
 
 RULE = ('generated dataclass modules: 1-5 fields from an annotation pool (classes, Optional, Union, List / list, Dict, Tuple, Set, Literal, '
         'user classes, forward references naming a class of the module, SELF-REFERENTIAL fields (List / Optional / Dict / Tuple / Union of the dataclass itself or of its decorated subclass, as forward reference or plain string, holding real instances of the generated class), classes defined INSIDE A FUNCTION with forward references to function-local classes (resolved in the frame of the caller), Any), defaults and default factories, decorated base + decorated '
         'subclass (fields declared in the parent), slots / order / kw_only, type_safe on and off, a user __post_init__ that journals or raises; '
         'operations: constructor, copy_with (replacing each field in turn), deep_copy_with with and WITHOUT keywords after an in-place '
         'mutation of a mutable field, validate_types() on valid instances and after object.__setattr__ / in-place mutation; values conforming '
-        'or with exactly one non-conforming field at each position. non-trivial = some field value does not conform or the class has >= 2 fields')
+        'or with exactly one non-conforming field at each position. Every operation is also run through the statement programs translated from the '
+        'source (Frozen IR): same outcome, same number of user-hook runs, the field values of a copy as computed by the translated copy method, and the '
+        'statements executed by the real library (line events inside cls_deco_frozen_dataclass.py / get_context.py) equal the path of the IR interpreter. '
+        'non-trivial = some field value does not conform or the class has >= 2 fields')
 EXHAUSTIVE = {'quick': False, 'thorough': False}
 ASSUMPTIONS = ['function-local classes: the operation is executed by the function that defines the classes (a caller elsewhere cannot see the names at all: region fwdUnresolved)',
                'dataclasses machinery (defaults, replace, fields(), slots, inheritance of fields) is environment: the harness supplies the field list reported by dataclasses.fields() and the values the fields hold when __post_init__ runs']
-TRUSTED = ['dataclasses.__init__ calls __post_init__; dataclasses.replace re-enters __init__; copy.deepcopy preserves structure (C11: deepcopy_veq)']
+TRUSTED = ['statement traces: sys.monitoring LINE / PY_START events (tool id 3, local to the code objects of the two source files), lines mapped to statements with the table the translator computes from the current source; the trace conventions (a multi-line statement counts once per execution, a loop header once more at loop exit) are the same on both sides and validated by the agreement itself',
+           'dataclasses.__init__ calls __post_init__; dataclasses.replace re-enters __init__; copy.deepcopy preserves structure (C11: deepcopy_veq)']
 
 POOL = [('int', True), ('str', True), ('float', True), ('bool', True), ('List[int]', True), ('list[int]', True), ('Dict[str, int]', True),
         ('Optional[int]', True), ('Union[int, str]', True), ('Tuple[int, str]', True), ('Tuple[int, ...]', True), ('Set[int]', True), ('P', False),
@@ -35,6 +40,7 @@ SCOPE_TAIL = '''
     recipe = op['recipe']
     if recipe[0] == 'ctor':
         given = {n: mk(t) for n, t in op['vals'].items() if n not in op.get('omit', ())}
+        _mark()
         obj = cls(*given.values()) if op.get('positional') else cls(**given)
         return 'INSTANCE' if type(obj) is cls else 'OTHER'
     try:
@@ -43,12 +49,15 @@ SCOPE_TAIL = '''
         raise SetupFailed(e)
     del J[:]
     if recipe[0] == 'copy':
-        obj = getattr(inst, op['path'])(**{recipe[1]: mk(op['vals'][recipe[1]])})
+        new = {recipe[1]: mk(op['vals'][recipe[1]])}
+        _mark()
+        obj = getattr(inst, op['path'])(**new)
         return 'INSTANCE' if type(obj) is cls else 'OTHER'
     if recipe[0] == 'mutate':
         getattr(inst, recipe[1]).append(U())
     if recipe[0] == 'setattr':
         object.__setattr__(inst, recipe[1], mk(op['vals'][recipe[1]]))
+    _mark()
     if op['path'] == 'validate':
         inst.validate_types()
         return 'INSTANCE'
@@ -60,6 +69,8 @@ import dataclasses
 from pedantic import frozen_dataclass, frozen_type_safe_dataclass
 from _checker_common import P, C1, C2, G, U, MI
 J = []
+def _mark():
+    """the operation under test starts here (the harness replaces this function: statement traces are recorded from here on)"""
 class PostErr(Exception): pass
 class SetupFailed(Exception): pass
 @frozen_type_safe_dataclass
@@ -142,7 +153,8 @@ def gen_class(r, idx):
     if local:
         lines = ['def scope(op, build):', "    C1 = str     # decoy: the module's C1 must win", '    class Loc: pass'] + ['    ' + l for l in lines] + \
                 SCOPE_TAIL.replace('CLS', cls).splitlines()
-    return {'src': '\n'.join(lines) + '\n', 'cls': cls, 'ts': ts, 'post': post, 'idx': idx, 'selfref': selfref, 'local': local, 'levels': levels, 'kwonly': kwonly}
+    return {'src': '\n'.join(lines) + '\n', 'cls': cls, 'ts': ts, 'post': post, 'idx': idx, 'selfref': selfref, 'local': local, 'levels': levels, 'kwonly': kwonly,
+            'nbase': nf}
 
 
 def load(src, tag):
@@ -256,7 +268,20 @@ def gen_ops(r, fterms, defaults=None, positional=False):
 
 
 def execute(mod, clsname, op, post):
-    """run one operation on the real class; returns {'out', 'journal'}"""
+    """run one operation on the real class; returns {'out', 'journal', 'trace'}: `trace` = the statements of cls_deco_frozen_dataclass.py /
+    get_context.py executed by the operation itself (after the set-up), None when they were not recorded"""
+    tr = FT.tracer()
+    mod._mark = tr.begin
+    try:
+        out = _execute(mod, clsname, op, post, tr)
+    finally:
+        trace = tr.end()
+    # a user __post_init__ that builds further type-safe instances nests their traces into this one: not compared
+    out['trace'] = None if (post == 'nested' or out['out'].startswith('SETUP')) else trace
+    return out
+
+
+def _execute(mod, clsname, op, post, tr):
     from pedantic.exceptions import PedanticTypeCheckException, PedanticException
     del mod.J[:]
     if hasattr(mod, 'scope'):
@@ -289,6 +314,7 @@ def execute(mod, clsname, op, post):
         recipe = op['recipe']
         if recipe[0] == 'ctor':
             given = {n: v for n, v in build(op['vals']).items() if n not in op.get('omit', ())}
+            tr.begin()
             obj = cls(*given.values()) if op.get('positional') else cls(**given)
             return {'out': 'INSTANCE' if type(obj) is cls else 'OTHER', 'journal': _posts(mod), 'inner': _inner(mod)}
         # an existing instance first (built without validation noise: if that already fails, report it)
@@ -299,12 +325,15 @@ def execute(mod, clsname, op, post):
         del mod.J[:]
         if recipe[0] == 'copy':
             n = recipe[1]
-            obj = getattr(inst, op['path'])(**{n: K.build_val(op['vals'][n])})
+            new = {n: K.build_val(op['vals'][n])}
+            tr.begin()
+            obj = getattr(inst, op['path'])(**new)
             return {'out': 'INSTANCE' if type(obj) is cls else 'OTHER', 'journal': _posts(mod), 'inner': _inner(mod)}
         if recipe[0] == 'mutate':
             getattr(inst, recipe[1]).append(K.U())
         if recipe[0] == 'setattr':
             object.__setattr__(inst, recipe[1], K.build_val(op['vals'][recipe[1]]))
+        tr.begin()
         if op['path'] == 'validate':
             inst.validate_types()
             return {'out': 'INSTANCE', 'journal': _posts(mod), 'inner': _inner(mod)}
@@ -365,6 +394,19 @@ def local_env(names, clsname):
     return {**env, 'ctx': env['ctx'] + [[K.nid(clsname), K.IDX[ph]]]}, locs
 
 
+def hook_chain(C, nall):
+    """the __post_init__ chain of the class under test, for the statement-level model (Drv/FrozenIR.lean: hookOf): the user's own hook (or the
+    no-op default) innermost; around it one validating wrapper per type-safe decorated class that found it - a decorated subclass without
+    a hook of its own wraps the wrapper it inherits from its decorated base; every wrapper calls `self.validate_types()`, the method of the
+    instance's own class, so each of them validates all fields"""
+    u = 'noop' if C['post'] == 'absent' else (['user', 0] if C['post'] == 'raises' else ['user'])
+    if not C['ts']:
+        return u
+    if C.get('levels') == 2:
+        return ['w', nall, ['w', nall, u]]
+    return ['w', nall, u]
+
+
 def build_cases(rng, n, tag):
     cases = []
     for i in range(n):
@@ -398,12 +440,20 @@ def build_cases(rng, n, tag):
                 ops = gen_ops(rng, fterms, default_terms(cls), positional=not C.get('kwonly', True))
             finally:
                 K.EXTRA_CTX.clear()
+            hook = hook_chain(C, len(fterms))
             for op in ops:
                 impl = execute(mod, C['cls'], op, C['post'])
                 post = ['raises', 0] if C['post'] == 'raises' else ('runs' if C['post'] == 'nested' else C['post'])
+                if op['path'] in ('copy_with', 'deep_copy_with'):
+                    # what the receiver holds when the method is called, and the keywords: the statement-level model computes the copy's values
+                    held = op['vals'] if op['recipe'][0] == 'mutate' else op['base']
+                    extra2 = {'cur': [[K.nid(nm), t, held[nm]] for nm, t in fterms],
+                              'kw': [[K.nid(op['recipe'][1]), op['vals'][op['recipe'][1]]]] if op['recipe'][0] == 'copy' else []}
+                else:
+                    extra2 = {}
                 cases.append({'m': 'typesafe',
                               'c': {'env': env, 'fields': [[K.nid(nm), t, op['vals'][nm]] for nm, t in fterms], 'typeSafe': C['ts'],
-                                    'post': post, 'path': op['path'], **extra},
+                                    'post': post, 'path': op['path'], 'hook': hook, **extra, **extra2},
                               'x': {'src': C['src'], 'cls': C['cls'], 'op': op, 'postk': C['post'], '_impl': impl}})
         finally:
             unload(mod, d)
@@ -449,6 +499,19 @@ def judge(case, impl, model):
         pass                                        # validate_types() is available and checks also without type_safe
     mj = len(model['journal'])
     corr = ic == mc and (path == 'validate' or impl['journal'] == mj)
+    # the statement-level model (Frozen IR): same outcome, same number of user-hook runs, and the path it took is the path the library took
+    ir, why_ir = model.get('ir'), ''
+    if ir:
+        iro = ir.get('outcome')
+        irc = None if iro is None else ('POST_EXC' if iro.startswith('POST_EXC') else iro)
+        if irc != ic or (path != 'validate' and ir.get('journal') != impl['journal']):
+            why_ir = f"the interpreted statement programs give {iro} (user hook ran {ir.get('journal')} times), the implementation {io} ({impl['journal']})"
+        elif ir.get('fieldsAgree') is False:
+            why_ir = 'the field values the translated copy method computes (receiver values overridden by the keywords) are not the values the harness says the copy holds'
+        else:
+            why_ir = FT.compare(impl.get('trace'), ir.get('path')) or ''
+        if why_ir:
+            corr = False
     pfail = None
     raises = case['x']['postk'] == 'raises' and path != 'validate'      # the user's __post_init__ raises: its exception is the outcome
     if model['claimed'] and (ts or path == 'validate') and not raises:
@@ -470,7 +533,11 @@ def judge(case, impl, model):
     nf = len(case['c']['fields'])
     return {'corr': corr, 'pfail': pfail, 'finding': finding, 'nontrivial': (not model['spec']) or nf >= 2,
             'tag': f"{path}/{case['x']['op']['recipe'][0]}/ts={int(ts)}/spec={int(model['spec'])}/{ic}",
-            'why': '' if corr else f'implementation ({io}, post ran {impl["journal"]}) vs model ({mo}, {mj})'}
+            'why': '' if corr else (why_ir or f'implementation ({io}, post ran {impl["journal"]}) vs model ({mo}, {mj})')}
+
+
+def extra_coverage(results):
+    return FT.coverage([(i.get('trace'), (m.get('ir') or {}).get('path'), j.get('tag', '')) for (c, i, m, j) in results])
 
 
 def describe(case):
